@@ -34,6 +34,10 @@ def mc(ctx, alphabet, maxlen, tag):
 
 def all_replies(o):
     outs = {q: common.call(f, o) for q, f in GET.items()}
+    first = common.call(o.get_amino_acid_fractions)
+    if first[0] == "ok" and isinstance(first[1], dict):
+        for key in list(first[1]):          # the caller owns the returned dictionary
+            first[1][key] = -1.0
     outs["aa"] = common.call(o.get_amino_acid_fractions)
     return outs
 
